@@ -751,6 +751,10 @@ func (sys *sharedSystem) runOp(ctx context.Context, s *sched.Sched, tid int, op 
 		case "multiget":
 			l, err := sys.cal.MultiGetCalendar(ctx, c, &caldav.CalendarMultiGet{Paths: []string{c + "o.ics"}})
 			return calObjs(l) + " " + errStr(err)
+		case "bigmultiget":
+			// a request body of several KiB (250 hrefs): buffers are sized, pooled or recycled by size
+			l, err := sys.cal.MultiGetCalendar(ctx, c, &caldav.CalendarMultiGet{Paths: repeatPath(c+"o.ics", 250)})
+			return fmt.Sprintf("%d objects, first %s %s", len(l), calObjs(l[:min1(len(l))]), errStr(err))
 		case "query":
 			l, err := sys.cal.QueryCalendar(ctx, c, &caldav.CalendarQuery{CompFilter: caldav.CompFilter{Name: "VCALENDAR"}})
 			return calObjs(l) + " " + errStr(err)
@@ -780,6 +784,9 @@ func (sys *sharedSystem) runOp(ctx context.Context, s *sched.Sched, tid int, op 
 		case "multiget":
 			l, err := sys.card.MultiGetAddressBook(ctx, c, &carddav.AddressBookMultiGet{Paths: []string{c + "o.vcf"}})
 			return cardObjs(l) + " " + errStr(err)
+		case "bigmultiget":
+			l, err := sys.card.MultiGetAddressBook(ctx, c, &carddav.AddressBookMultiGet{Paths: repeatPath(c+"o.vcf", 250)})
+			return fmt.Sprintf("%d objects, first %s %s", len(l), cardObjs(l[:min1(len(l))]), errStr(err))
 		case "query":
 			l, err := sys.card.QueryAddressBook(ctx, c, &carddav.AddressBookQuery{PropFilters: []carddav.PropFilter{{Name: "FN"}}})
 			return cardObjs(l) + " " + errStr(err)
@@ -798,6 +805,21 @@ func (sys *sharedSystem) runOp(ctx context.Context, s *sched.Sched, tid int, op 
 		}
 	}
 	return "unknown-op"
+}
+
+func repeatPath(p string, n int) []string {
+	out := make([]string, n)
+	for i := range out {
+		out[i] = p
+	}
+	return out
+}
+
+func min1(n int) int {
+	if n > 1 {
+		return 1
+	}
+	return n
 }
 
 func calObjs(l []caldav.CalendarObject) string {
@@ -1022,7 +1044,9 @@ func concHarnesses(full bool) []concHarness {
 	for _, kind := range []string{"caldav", "carddav"} {
 		out = append(out, concHarness{Kind: kind, Scripts: []opScript{{"put", "get"}, {"put", "query"}}},
 			concHarness{Kind: kind, Scripts: []opScript{{"put", "multiget"}, {"find", "put"}}},
-			concHarness{Kind: kind, Scripts: []opScript{{"query", "put"}, {"get", "find"}}})
+			concHarness{Kind: kind, Scripts: []opScript{{"query", "put"}, {"get", "find"}}},
+			concHarness{Kind: kind, Scripts: []opScript{{"bigmultiget"}, {"bigmultiget"}}},
+			concHarness{Kind: kind, Scripts: []opScript{{"bigmultiget"}, {"find"}}})
 	}
 	// three threads
 	out = append(out,
